@@ -9,8 +9,8 @@ import semlib
 from vlib import log
 
 
-def validate(script, label, backends="cdb,cdbsep,v1,v2", env=None):
-    trace, info = semlib.run_sem(script, label, backends=backends, env=env)
+def validate(script, label, backends="cdb,cdbsep,v1,v2", env=None, race=False, extra=()):
+    trace, info = semlib.run_sem(script, label, backends=backends, env=env, race=race, extra=extra)
     res = vlib.tv("ResolveTrace", trace, timeout=3400)
     rows = [json.loads(x) for x in open(trace)]
     log("[%s] %d files, %d queries, trace %d lines validated in %.0fs, %d rejected judgements"
@@ -46,6 +46,9 @@ def collect(rep, script, rows, res, classes, stats, limit=40):
                                              semlib.show_resp(e["r"][backend]))
             if other:
                 what += "  ||  %s: %s" % (other, semlib.show_resp(e["r"][other]))
+        elif e["ev"] == "freq":
+            what = "%s: %s asked %d times on %s -> counts %s other=%s" % (clause, semlib.show_q(e["q"]), e["n"], backend,
+                                                                         json.dumps(e["counts"][backend]), e["other"][backend])
         elif e["ev"] == "loc":
             what = "%s: %s lookup of %s for %s on %s -> %s" % (clause, e["q"]["kind"], semlib.txt(e["q"]["name"]), semlib._ip_text(e["q"]["c"]) + "/%d" % e["q"]["c"]["len"],
                                                             backend, json.dumps(e["r"][backend]))
